@@ -13,6 +13,7 @@ import (
 	"net/http/httptest"
 	"os"
 	"runtime"
+	"sort"
 	"sync"
 	"sync/atomic"
 	"testing"
@@ -93,7 +94,10 @@ func cancelHook(ctx context.Context, typ string, id int64, field string, inBatch
 }
 
 func buildConfigs(run *vlib.Run, sd *gen.SchemaDesc, n int) []*config {
-	env := &gen.Env{Pause: pause, Fail: cancelHook}
+	env := &gen.Env{Pause: pause, Fail: func(ctx context.Context, typ string, id int64, field string, inBatch bool) error {
+		liveHook(ctx, typ, id, field)
+		return cancelHook(ctx, typ, id, field, inBatch)
+	}}
 	var out []*config
 	uniform := []gen.Mode{{Kind: gen.MPlain}, {Kind: gen.MBatch}, {Kind: gen.MExpensive}, {Kind: gen.MBatchFallback}}
 	for c := 0; c < n; c++ {
@@ -192,6 +196,172 @@ func executeInRerunner(schema *graphql.Schema, sched graphql.WorkScheduler, text
 	return results
 }
 
+// liveDeps gives every (type, id, field) a resolver reads its own reactive
+// resource; resolvers register it on the context thunder hands them.
+type liveKey struct {
+	typ   string
+	id    int64
+	field string
+}
+type liveDeps struct {
+	mu  sync.Mutex
+	res map[liveKey]*reactive.Resource
+}
+type liveCtxKey struct{}
+
+func liveHook(ctx context.Context, typ string, id int64, field string) {
+	d, _ := ctx.Value(liveCtxKey{}).(*liveDeps)
+	if d == nil || (typ != "Node" && typ != "Leaf") {
+		return
+	}
+	k := liveKey{typ, id, field}
+	d.mu.Lock()
+	r := d.res[k]
+	if r == nil {
+		r = reactive.NewResource()
+		d.res[k] = r
+	}
+	d.mu.Unlock()
+	reactive.AddDependency(ctx, r, nil)
+}
+
+// executeLive runs the query inside a reactive.Rerunner over its own copy of
+// the world in which every Node / Leaf resolver depends on a resource of its
+// own (type, id, field). After the first run a seeded few of the values that
+// run read are changed and exactly their resources invalidated. Thunder's
+// reactive cache is eventually consistent (a run may still meet a cache entry
+// whose invalidation is under way; it is then invalidated and run again), so
+// single re-runs are not judged: the rerunner must go on until its latest
+// result is the reference result over the changed data - whatever is cached
+// for Expensive fields, a resolver that registered a dependency on the context
+// it was given is re-run once that dependency is invalidated. "Quiet with a
+// stale latest result" is decided by vlib.WaitCond's stuck-versus-slow
+// classifier; still busy at the deadline is inconclusive.
+// first is the first run's result (judged against the unchanged world).
+type liveOutcome struct {
+	first   execResult
+	changed int // values changed (0: leg not applicable)
+	reruns  int64
+	outcome vlib.Outcome
+	latest  execResult // latest re-run result when outcome != Reached
+	want2   string
+}
+
+func executeLive(schema *graphql.Schema, sched graphql.WorkScheduler, text string, vars map[string]interface{}, w *gen.World, flag bool, r *rand.Rand, wantAfter func(w2 *gen.World) ([]string, error)) (lo liveOutcome, err error) {
+	q, perr := graphql.Parse(text, vars)
+	if perr != nil {
+		lo.first = execResult{err: perr, at: "Parse"}
+		return lo, nil
+	}
+	if perr := graphql.PrepareQuery(context.Background(), schema.Query, q.SelectionSet); perr != nil {
+		lo.first = execResult{err: perr, at: "PrepareQuery"}
+		return lo, nil
+	}
+	w2 := w.Clone()
+	deps := &liveDeps{res: map[liveKey]*reactive.Resource{}}
+	firstCh := make(chan execResult, 1)
+	var mu sync.Mutex
+	var latest *execResult
+	var runs, activity int64
+	ex := graphql.NewExecutor(sched)
+	base := context.WithValue(gen.WithUseBatch(gen.WithWorld(context.Background(), w2), flag), liveCtxKey{}, deps)
+	rr := reactive.NewRerunner(base, func(ctx context.Context) (interface{}, error) {
+		atomic.AddInt64(&activity, 1)
+		ctx = batch.WithBatching(ctx)
+		val, err := ex.Execute(ctx, schema.Query, nil, q)
+		if err == nil {
+			// like the websocket server, serialise the result inside the
+			// computation: cached parts of it are shared with the next run
+			if j, jerr := vlib.ToJSONForm(val); jerr == nil {
+				val = j
+			} else {
+				err = fmt.Errorf("result cannot be serialised: %v", jerr)
+			}
+		}
+		res := execResult{val: val, err: err, at: "Execute(rerunner, live data)"}
+		if atomic.AddInt64(&runs, 1) == 1 {
+			firstCh <- res
+		} else {
+			res.at = "Execute(rerunner, re-run after a data change)"
+			mu.Lock()
+			latest = &res
+			mu.Unlock()
+		}
+		atomic.AddInt64(&activity, 1)
+		return nil, nil
+	}, 0, false)
+	defer rr.Stop()
+	select {
+	case lo.first = <-firstCh:
+	case <-time.After(60 * time.Second):
+		lo.first = execResult{at: "timeout"}
+		return lo, nil
+	}
+	if lo.first.err != nil {
+		return lo, nil
+	}
+	// the first run is over: nothing reads w2 now
+	deps.mu.Lock()
+	keys := make([]liveKey, 0, len(deps.res))
+	for k := range deps.res {
+		keys = append(keys, k)
+	}
+	deps.mu.Unlock()
+	if len(keys) == 0 {
+		return lo, nil
+	}
+	sort.Slice(keys, func(i, j int) bool {
+		a, b := keys[i], keys[j]
+		if a.typ != b.typ {
+			return a.typ < b.typ
+		}
+		if a.id != b.id {
+			return a.id < b.id
+		}
+		return a.field < b.field
+	})
+	lo.changed = 1 + r.Intn(3)
+	var picked []*reactive.Resource
+	for j := 0; j < lo.changed; j++ {
+		k := keys[r.Intn(len(keys))]
+		w2.Bump(k.typ, k.id, k.field)
+		deps.mu.Lock()
+		picked = append(picked, deps.res[k])
+		deps.mu.Unlock()
+	}
+	ok, werr := wantAfter(w2)
+	if werr != nil {
+		return lo, werr
+	}
+	lo.want2 = ok[0]
+	for _, res := range picked {
+		res.Strobe()
+	}
+	lo.outcome = vlib.WaitCond(func() bool {
+		mu.Lock()
+		defer mu.Unlock()
+		if latest == nil || latest.err != nil {
+			return false
+		}
+		gc := vlib.Canon(latest.val)
+		for _, o := range ok {
+			if gc == o {
+				return true
+			}
+		}
+		return false
+	}, func() int64 { return atomic.LoadInt64(&activity) }, time.Second, 60*time.Second)
+	lo.reruns = atomic.LoadInt64(&runs) - 1
+	mu.Lock()
+	if latest != nil {
+		lo.latest = *latest
+	} else {
+		lo.latest = execResult{at: "no re-run happened"}
+	}
+	mu.Unlock()
+	return lo, nil
+}
+
 // executeHTTP sends the query through graphql's HTTP entry point (the handler
 // runs it in a rerunner with batching, like a production server).
 func executeHTTP(schema *graphql.Schema, sched graphql.WorkScheduler, text string, vars map[string]interface{}, w *gen.World, flag bool) execResult {
@@ -256,6 +426,9 @@ func TestCheck(t *testing.T) {
 		case 4:
 			// a field answering under the name of the object's key field
 			o.KeyNameAlias = true
+		case 5:
+			// fragments typed on a union spread inside objects of its member types
+			o.PUnionInObject = 0.25
 		case 2, 3:
 			// @skip/@include as part of ordinary queries (C19 studies them by
 			// themselves); a selection set may lose all its selections
@@ -284,6 +457,9 @@ func TestCheck(t *testing.T) {
 		}
 		if o.PDir > 0 {
 			run.Count("query_feature:directives", 1)
+		}
+		if doc.UnionInObject > 0 {
+			run.Count("query_feature:union_fragment_inside_member_object", 1)
 		}
 		ft := doc.Features(sd)
 		score := 0
@@ -445,6 +621,56 @@ func TestCheck(t *testing.T) {
 		for _, res := range executeInRerunner(cfg.schema, scheds[s].New(int64(i)), text, vars, w, i%2 == 0) {
 			run.Count("rerunner_runs", 1)
 			report(cfg, scheds[s].Name+"+rerunner", i%2 == 0, res)
+		}
+		// live data: fine-grained invalidation below cached (Expensive) fields
+		{
+			cfg := configs[(i+2)%len(configs)]
+			s := (i + 2) % len(scheds)
+			lo, err := executeLive(cfg.schema, scheds[s].New(int64(i)), text, vars, w, i%2 == 0, run.Rand("live", i), func(w2 *gen.World) ([]string, error) {
+				want2, err := gen.Eval(sd, doc, w2)
+				if err != nil {
+					return nil, err
+				}
+				ok := []string{vlib.Canon(want2)}
+				if doc.Foreign > 0 {
+					alt, err := gen.EvalForeign(sd, doc, w2, false)
+					if err != nil {
+						return nil, err
+					}
+					ok = append(ok, vlib.Canon(alt))
+				}
+				return ok, nil
+			})
+			if err != nil {
+				run.Broken(fmt.Sprintf("case %d: %v\n%s", i, err, text))
+				return
+			}
+			report(cfg, scheds[s].Name+"+rerunner(live)", i%2 == 0, lo.first)
+			if lo.changed > 0 {
+				run.Count("live_data_changes", 1)
+				run.Count("live_reruns", int(lo.reruns))
+				atomic.AddInt64(&executions, lo.reruns)
+				if lo.want2 != wantC {
+					run.Count("live_data_changes_visible_in_result", 1)
+				}
+				wit := map[string]interface{}{"query": text, "variables": vars, "world": map[string]interface{}{"seed": w.Seed, "n": w.N, "m": w.M},
+					"config": cfg.name, "modes": fmt.Sprint(cfg.cfg.Modes), "scheduler": scheds[s].Name, "stage": lo.latest.at, "values_changed": lo.changed, "reruns": lo.reruns,
+					"expected": vlib.Trunc(lo.want2, 3000), "first_run_expected": vlib.Trunc(wantC, 3000)}
+				switch lo.outcome {
+				case vlib.Reached:
+				case vlib.Undecided:
+					run.Inconclusive(fmt.Sprintf("case %d: live re-runs still under way after 60s (%s/%s)", i, cfg.name, scheds[s].Name))
+				default:
+					if lo.latest.err != nil {
+						wit["what"] = "valid query failed when re-run after a data change"
+						wit["error"] = lo.latest.err.Error()
+					} else {
+						wit["what"] = "rerunner went quiet with a stale result: values read by resolvers were changed and their resources invalidated, the latest re-run differs from the reference over the changed data"
+						wit["got"] = vlib.Trunc(vlib.Canon(lo.latest.val), 3000)
+					}
+					run.Violation(i, "", wit)
+				}
+			}
 		}
 	})
 	run.Set("executions", executions)
